@@ -100,6 +100,39 @@ def gen_multi_device(ctx):
     return out
 
 
+def gen_large(ctx):
+    """tens of thousands of states of which ONE changes its action per improvement step: almost every state keeps its action for
+    ever (both actions identical), a short chain c_1 -> ... -> c_k -> G learns to walk towards the rewarding absorbing state G one
+    link per iteration.  'No state changed' is a count of zero - not a vanishing FRACTION of the states"""
+    out = []
+    for i in range(1 if ctx.tier == "quick" else 6):
+        sub = ctx.rng.randrange(10 ** 9)
+        rng = random.Random(sub)
+        nS = rng.choice([20480, 24000, 33000]) + rng.randrange(1, 200)
+        k = rng.choice([3, 4, 5])
+        c = runs.gen_run_case(rng, "pi", family="det", nS=nS, nA=2, nE=1, g=F(1, 2), eps=F(1, 2 ** 20), ks=[12], max_eval=3, rscale=0, init="zero", mb=rng.choice([1024, 8192]))
+        spec = c["spec"]
+        spec["init_policy"] = None
+        spec["actions"] = [[0], [1]] if len(spec["actions"][0]) == 1 else [[0] * len(spec["actions"][0]), [1] + [0] * (len(spec["actions"][0]) - 1)]
+        spec["nxt"] = [[[s], [s]] for s in range(nS)]
+        spec["rew"] = [[["0"], ["0"]] for _ in range(nS)]
+        spec["prb"] = [[["1"], ["1"]] for _ in range(nS)]
+        chain = rng.sample(range(nS), k + 1)
+        G = chain[-1]
+        spec["rew"][G] = [["4"], ["4"]]
+        for a, b in zip(chain, chain[1:]):
+            spec["nxt"][a][1] = [b]
+        c.update({"seed": sub, "large": True, "chain": chain, "reset": rng.random() < 0.5})
+        try:
+            refout, guard = runs.reference(c)
+        except (ZeroDivisionError, OverflowError):
+            continue
+        if guard["ok"] and refout[-1]["converged"] and refout[-1]["iteration"] >= k:
+            c["guard"] = guard
+            out.append(c)
+    return out
+
+
 def run(ctx, build):
     cs = gen(ctx)
     res = core.run_workers(ctx, [runs.job_of(c) for c in cs])
@@ -109,6 +142,12 @@ def run(ctx, build):
         for c, r in zip(md, core.run_workers(ctx, [runs.job_of(c) for c in md], devices=dv)):
             md_runs.append((dict(c, devices=dv), r))
     corr, viols, items, meta = [], [], [], []
+    lg = gen_large(ctx)
+    for c, r in zip(lg, core.run_workers(ctx, [runs.job_of(c) for c in lg])):
+        refout, guard = runs.reference(c)
+        why = oracle(c, r, refout)
+        if why:
+            viols.append({"key": f"pi-large:{c['seed']}", "what": f"{c['spec']['nS']} states, one action change per improvement step: {why}", "input": {"case": c}})
     for c, r in md_runs:
         refout, guard = runs.reference(c)
         why = oracle(c, r, refout)
@@ -135,7 +174,7 @@ def run(ctx, build):
     nontriv = {solverun.case_id([c["spec"]["nxt"], c["spec"]["rew"], c["spec"]["prb"], c["spec"].get("init_policy"), c["test"], c["reset"], c["max_eval"], c["g"], c["eps"]])
                for c in cs if c["spec"]["nA"] >= 2 and solverun.nontrivial_mdp(c["spec"])}
     cov = {
-        "evaluations": len(cs) + len(md_runs), "distinct_nontrivial": len(nontriv), "multi_device_runs_with_more_than_64_states": len(md_runs),
+        "evaluations": len(cs) + len(md_runs) + len(lg), "runs_with_more_than_20000_states": [c["spec"]["nS"] for c in lg], "distinct_nontrivial": len(nontriv), "multi_device_runs_with_more_than_64_states": len(md_runs),
         "rule": "generated MDPs x {injected initial policy with one improvement step, whole runs} x test x reset x max_eval_iter in {1,3,100}; "
                 "non-trivial = >= 2 actions and >= 2 positive-probability events somewhere",
         "distribution": dist,
